@@ -18,6 +18,7 @@ Require Import GV.Base.Res GV.Spec.Graph GV.Model.Filter GV.Spec.FilterSpec.
 Require Import GV.Proofs.FilterProofs GV.Proofs.FilterEdges GV.Proofs.FilterConv GV.Proofs.FilterParents.
 Require Import GV.Proofs.FilterTol.
 Require Import GV.Base.Ints GV.Model.FilterAttrs GV.Proofs.FilterBounds GV.Proofs.FilterAttrsProofs.
+Require Import GV.Proofs.FilterAttrsStruct GV.Proofs.FilterSplit.
 Import ListNotations.
 Local Open Scope N_scope.
 
@@ -423,6 +424,111 @@ Example split_ex :
   = Ok [(121, 111); (131, 121); (141, 131); (151, 111)].
 Proof. vm_compute. reflexivity. Qed.
 
+(* ------------------------------------------------------------------------------------------ *)
+(* (9) ONE model of the conversion.  The attribute-level conversion of Model/FilterAttrs.v (convert_units_attrs:
+   read_entry + add_entry + convert_attributes with entry_ids and real attribute lists) and the conversion of
+   Model/Filter.v that the closure / minimality / parent theorems are about emit the same DIEs attached to the
+   same parents: whenever the attribute-level filtered conversion (strict or tolerant) succeeds, its DIEs and
+   parents are those of convert_filtered_tol - hence (tolerant_emits_reserved, parents_kept) exactly the reserved
+   set, each DIE under its own parent. *)
+Theorem attrs_structure : forall (tol dbg : bool) (req : N -> bool) (aunits : list aunit) m out,
+  convert_filtered_attrs tol dbg req aunits = Ok (m, out) ->
+  ids_filtered dbg req (map unit_of aunits) = Ok m /\
+  convert_filtered_tol filter_refs dbg req (map unit_of aunits) = Ok (map cd_pair out).
+Proof. exact attrs_structure_full. Qed.
+
+(* and whenever the strict conversion of Model/Filter.v succeeds, so does the attribute-level one, with the same
+   DIEs and parents (the converse needs no DW_AT_GNU_locviews attribute with a malformed reference: the model of
+   Filter.v converts every site the filter sees, convert_attributes skips that attribute) *)
+Theorem attrs_strict : forall (dbg : bool) (req : N -> bool) (aunits : list aunit) out0,
+  convert_filtered filter_refs dbg req (map unit_of aunits) = Ok out0 ->
+  exists m out, convert_filtered_attrs false dbg req aunits = Ok (m, out) /\ map cd_pair out = out0.
+Proof. exact attrs_strict_full. Qed.
+
+(* (9') Same attributes for the tolerant loop, composed with tolerant_emits_reserved.  For EVERY well-formed
+   attribute forest (whatever its reference sites hold), every required predicate and both build modes the
+   attribute-by-attribute conversion under the filter succeeds, emits exactly the reserved set with the parents
+   of convert_filtered_tol, and every emitted DIE carries exactly the attributes the same loop produces for that
+   DIE in the UNFILTERED conversion (same attributes survive, same order, same bodies, references to the same
+   source DIEs once ids are read back). *)
+Theorem same_attributes_tolerant : forall (dbg : bool) (req : N -> bool) (aunits : list aunit),
+  wf_offsets (map unit_of aunits) -> wf_layout (map unit_of aunits) ->
+  exists S mF out,
+    reserved filter_refs dbg req (map unit_of aunits) = Ok S /\
+    convert_filtered_attrs true dbg req aunits = Ok (mF, out) /\
+    convert_filtered_tol filter_refs dbg req (map unit_of aunits) = Ok (map cd_pair out) /\
+    (forall x, In x (map cd_off out) <-> In x S) /\
+    forall c, In c out -> exists au e,
+      In au aunits /\ In e (aunit_entries au) /\ cd_off c = sec (unit_of au) (ae_off e) /\
+      map (decode_attr mF) (cd_attrs c) =
+      map (decode_attr (ids_all (map unit_of aunits)))
+          (cv_attributes_tol (unit_of au) (ids_all (map unit_of aunits)) (snd (cu_filter_attributes (ae_attrs e)))).
+Proof. exact same_attributes_tolerant_full. Qed.
+
+Example attrs_structure_ex :
+  exists m out, convert_filtered_attrs false true exa_req exa_units = Ok (m, out) /\
+                map cd_pair out = [(21, 11); (31, 21); (51, 11)] /\
+                map cd_sibling out = [false; false; true].
+Proof. eexists. eexists. split; [vm_compute; reflexivity|]. split; reflexivity. Qed.
+
+(* DW_AT_GNU_locviews (decision recorded in notes/c19attr.md): the filter records the references of such an
+   attribute, convert_attributes skips the attribute.  Here the required variable names the typedef only through a
+   reference-form DW_AT_GNU_locviews: the typedef is reserved (it IS connected to the required DIE by a reference
+   of the input, which is what the property's minimality clause speaks about) and the variable's converted
+   attributes do not mention it - in the filtered and in the unfiltered conversion alike. *)
+Definition exl_typedef : aentry := {| ae_off := 21; ae_tag := 22; ae_attrs := [] |}.
+Definition exl_var : aentry :=
+  {| ae_off := 31; ae_tag := 52;
+     ae_attrs := [ {| at_name := DW_AT_GNU_locviews; at_body := 0; at_sites := [ {| s_car := CAttrUnit; s_val := 21 |} ] |} ] |}.
+Definition exl_units : list aunit :=
+  [ {| au_off := 0; au_hdr := 11; au_len := 40; au_kids := [ ANode exl_typedef []; ANode exl_var [] ] |} ].
+Example locviews_ex :
+  reserved filter_refs true (fun x => x =? 31) (map unit_of exl_units) = Ok [21; 31] /\
+  cv_entry_attrs exa_u [(11, (0, 0)); (21, (0, 1)); (31, (0, 2))] exl_var = Ok [].
+Proof. split; vm_compute; reflexivity. Qed.
+
+(* ------------------------------------------------------------------------------------------ *)
+(* (10) Split-unit filters on a .dwo section with ANY number of units (DWARF 5 and GNU DWARF 4 split units take
+   the same path).  ConvertSplitUnitSection::new_with_filter converts the FIRST unit and reserves ALL reachable
+   offsets.  For every well-formed section u0 :: us: the tolerant split conversion succeeds and emits exactly the
+   reserved DIEs that lie in u0, and a strict split conversion that succeeds emits the same list. *)
+Theorem split_units : forall rf (dbg : bool) (req : N -> bool) (u0 : unitd) (us : list unitd),
+  wf_offsets (u0 :: us) -> wf_layout (u0 :: us) ->
+  exists S out,
+    reserved rf dbg req (u0 :: us) = Ok S /\
+    convert_split_filtered_tol rf dbg req (u0 :: us) = Ok out /\
+    (forall x, In x (map fst out) <-> In x S /\ in_unit u0 x = true) /\
+    (forall out', convert_split_filtered rf dbg req (u0 :: us) = Ok out' -> out' = out).
+Proof. exact split_units_full. Qed.
+
+(* No dangling reference in the split path, EXCEPT the known class (known_findings.txt, C19 split): every
+   reference the strict split conversion resolves for an emitted DIE names the root DIE, an emitted DIE, or
+   `split_foreign`: a reserved DIE of ANOTHER unit of the .dwo section - reserved by new_with_offsets, never added,
+   so that write() fails with InvalidReference although the conversion succeeded.  Full statement (false for
+   gimli as it is): the third disjunct absent. *)
+Theorem split_refs_partial : forall (dbg : bool) (req : N -> bool) (u0 : unitd) (us : list unitd) S out,
+  wf_offsets (u0 :: us) -> wf_layout (u0 :: us) ->
+  reserved filter_refs dbg req (u0 :: us) = Ok S ->
+  convert_split_filtered filter_refs dbg req (u0 :: us) = Ok out ->
+  forall e par s y, In (e, par) (unit_pairs u0) -> In (sec u0 (e_off e)) (map fst out) ->
+    In s (e_sites e) -> In y (conv_refs u0 s) ->
+    y = root_off u0 \/ In y (map fst out) \/ split_foreign u0 S y = true.
+Proof. exact split_refs_full. Qed.
+
+(* the known class is inhabited: two units in the .dwo section, a required variable of the first whose DW_AT_type
+   is a DW_FORM_ref_addr reference to a struct of the second.  The filtered split conversion succeeds in both
+   build modes and holds a reference to the never-emitted struct; the unfiltered conversion of the first unit
+   alone (ConvertUnit::convert_split) reports InvalidDebugInfoRef. *)
+Theorem split_refs_refuted :
+  wf_offsets sx_units /\ wf_layout sx_units /\
+  reserved filter_refs true (fun x => x =? 21) sx_units = Ok [21; 121; 131] /\
+  convert_split_filtered filter_refs true (fun x => x =? 21) sx_units = Ok [(21, 11)] /\
+  convert_split_filtered filter_refs false (fun x => x =? 21) sx_units = Ok [(21, 11)] /\
+  In 131 (conv_refs sx_u0 {| s_car := CAttrInfo; s_val := 131 |}) /\
+  split_foreign sx_u0 [21; 121; 131] 131 = true /\
+  convert_all [sx_u0] = Err CInvalidDebugInfoRef.
+Proof. exact split_dangling_witness. Qed.
+
 (* pins *)
 Check worklist_correct : forall d : deps,
   exists l, get_reachable d = Ok l /\ strict_sorted l /\
@@ -454,3 +560,14 @@ Check oob_refs_add_nothing : forall (dbg : bool) (req : N -> bool) (units : list
 Check split_single_unit : forall rf (dbg : bool) (req : N -> bool) (u : unitd),
   wf_offsets [u] -> wf_layout [u] ->
   convert_split_filtered rf dbg req [u] = convert_filtered rf dbg req [u].
+Check attrs_structure : forall (tol dbg : bool) (req : N -> bool) (aunits : list aunit) m out,
+  convert_filtered_attrs tol dbg req aunits = Ok (m, out) ->
+  ids_filtered dbg req (map unit_of aunits) = Ok m /\
+  convert_filtered_tol filter_refs dbg req (map unit_of aunits) = Ok (map cd_pair out).
+Check split_units : forall rf (dbg : bool) (req : N -> bool) (u0 : unitd) (us : list unitd),
+  wf_offsets (u0 :: us) -> wf_layout (u0 :: us) ->
+  exists S out,
+    reserved rf dbg req (u0 :: us) = Ok S /\
+    convert_split_filtered_tol rf dbg req (u0 :: us) = Ok out /\
+    (forall x, In x (map fst out) <-> In x S /\ in_unit u0 x = true) /\
+    (forall out', convert_split_filtered rf dbg req (u0 :: us) = Ok out' -> out' = out).
